@@ -54,6 +54,20 @@ Definition verify_wsh (e : env) (program : bytes) (witness : list bytes) : bool 
 
 Definition spk_is_p2wsh (spk : bytes) : option bytes :=
   match spk with 0 :: 32 :: prog => if N.eqb (blen prog) 32 then Some prog else None | _ => None end.
+Definition spk_is_p2wpkh (spk : bytes) : option bytes :=
+  match spk with 0 :: 20 :: prog => if N.eqb (blen prog) 20 then Some prog else None | _ => None end.
+
+(* P2WPKH: witness = [signature; compressed key]; implicit script DUP HASH160 <h> EQUALVERIFY CHECKSIG *)
+Definition verify_wpkh (e : env) (h : bytes) (witness : list bytes) : bool :=
+  match witness with
+  | [sg; k] =>
+    N.eqb (blen k) 33 &&
+    final_ok (exec (with_sv e SvWitnessV0)
+                   [IOp OP_DUP; IOp OP_HASH160; IPush h; IOp OP_EQUALVERIFY; IOp OP_CHECKSIG]
+                   (mkSt [k; sg] []))
+  | _ => false
+  end.
+
 Definition spk_is_p2sh (spk : bytes) : option bytes :=
   match spk with
   | 169 :: 20 :: rest =>
@@ -79,6 +93,9 @@ Definition verify_sh (e : env) (h : bytes) (ssig : bytes) (witness : list bytes)
       | Some prog =>                                                   (* P2SH-P2WSH *)
         match st with [] => verify_wsh e prog witness | _ => false end
       | None =>
+        match spk_is_p2wpkh rb with
+        | Some kh => (match st with [] => verify_wpkh e kh witness | _ => false end)   (* P2SH-P2WPKH *)
+        | None =>
         match witness with
         | [] =>
           match parse_script rb with
@@ -87,6 +104,7 @@ Definition verify_sh (e : env) (h : bytes) (ssig : bytes) (witness : list bytes)
                       final_ok (exec (with_sv e SvBase) s (mkSt st []))
           end
         | _ => false
+        end
         end
       end
     end
@@ -135,6 +153,9 @@ Definition verify_spend (e : env) (commit_ok : bytes -> bytes -> bool)
   match spk_is_p2wsh spk with
   | Some prog => (match ssig with [] => verify_wsh e prog witness | _ => false end)
   | None =>
+    match spk_is_p2wpkh spk with
+    | Some kh => (match ssig with [] => verify_wpkh e kh witness | _ => false end)
+    | None =>
     match spk_is_p2sh spk with
     | Some h => verify_sh e h ssig witness
     | None =>
@@ -142,5 +163,6 @@ Definition verify_spend (e : env) (commit_ok : bytes -> bytes -> bool)
       | Some k => verify_tr e k commit_ok ssig witness
       | None => verify_bare e spk ssig witness
       end
+    end
     end
   end.
